@@ -46,4 +46,9 @@ func c20(c *Ctx) {
 	// "Rewind reports the new offset 0 and no error" — and a failing Seek is reported, not swallowed (E2/E3 of C18)
 	sets := errflow.ComputeIOSets(c.P)
 	errflow.E2E3(c.P, r, sets, errflow.E2Options{Exceptions: e2Exceptions, OnlyIO: true})
+	// nothing handed out before the Rewind aliases memory the second pass writes (S3); the pool and its accumulators are
+	// replaced by Rewind only (I8, P8)
+	joinS3(c)
+	joinI8(c)
+	joinP8(c)
 }
